@@ -280,9 +280,25 @@ pub fn program(ch: &mut Choices, o: &WildOpts) -> (Vec<Line>, WildInfo) {
                 term.push(ins(ch.pick_str(&syn::BRANCH2), vec![r(syn::any_reg(ch)), Opd::L(lx.clone())]));
                 if ch.chance(1, 2) {
                     // the fall-through path changes the number before its exit: the second ecall is
-                    // an exit only once the edge behind the first one is gone
-                    term.push(ins("li", vec![r(A7), i(103 - first)]));
+                    // an exit only once the edge behind the first one is gone. With k stages every
+                    // further exit is reached by its own branch (number known there) and by falling
+                    // out of the previous exit, so it is recognised one round later than that one.
+                    let k = ch.below(3);
+                    let mut v = 103 - first;
+                    let mut stage_labels = vec![];
+                    for st in 0..k {
+                        let l = format!("r{reg}_x{bi}s{st}");
+                        term.push(ins("li", vec![r(A7), i(v)]));
+                        term.push(ins(ch.pick_str(&syn::BRANCH2), vec![r(syn::any_reg(ch)), Opd::L(l.clone())]));
+                        stage_labels.push(l);
+                        v = 103 - v;
+                    }
+                    term.push(ins("li", vec![r(A7), i(v)]));
                     term.push(ins("ecall", vec![]));
+                    for l in stage_labels.into_iter().rev() {
+                        term.push(Line::Label(l));
+                        term.push(ins("ecall", vec![]));
+                    }
                 } else {
                     if ch.chance(1, 2) {
                         term.push(ins("li", vec![r(A0), i(ch.int_in(0, 3))]));
@@ -424,6 +440,54 @@ pub fn shared_tails(ch: &mut Choices) -> (Vec<Line>, WildInfo) {
         lines.extend(f);
     }
     (lines, info)
+}
+
+/// Install an interrupt handler through `utvec` (it is never called) and append its body. The
+/// sound one saves the two temporaries it uses and ends in `uret`; with `mixed` it also has a path
+/// that leaves through a plain `ret`, and a second `uret`.
+pub fn add_handler(lines: &mut Vec<Line>, ch: &mut Choices, name: &str, mixed: bool) -> bool {
+    let Some(first_ins) = lines.iter().position(|l| matches!(l, Line::Ins(_))) else { return false };
+    if lines.iter().any(|l| matches!(l, Line::Label(n) if n == name)) {
+        return false;
+    }
+    lines.insert(first_ins, ins("csrrw", vec![r(ZERO), Opd::C("utvec".into()), r(5)]));
+    lines.insert(first_ins, ins("la", vec![r(5), Opd::L(name.into())]));
+    lines.push(Line::Dir(".text".into(), vec![]));
+    lines.push(Line::Label(name.into()));
+    let (a, b) = *ch.pick(&[(5u8, 31u8), (6, 28), (31, 7), (29, 30)]);
+    lines.push(ins("addi", vec![r(SP), r(SP), i(-8)]));
+    lines.push(ins("sw", vec![r(a), m(0, SP)]));
+    lines.push(ins("sw", vec![r(b), m(4, SP)]));
+    lines.push(ins("li", vec![r(a), i(ch.int_in(1, 9))]));
+    lines.push(ins("addi", vec![r(b), r(a), i(1)]));
+    if mixed {
+        let alt = format!("{name}_alt");
+        let alt2 = format!("{name}_alt2");
+        lines.push(ins(ch.pick_str(&syn::BRANCH2), vec![r(b), Opd::L(alt.clone())]));
+        lines.push(ins(ch.pick_str(&syn::BRANCH2), vec![r(a), Opd::L(alt2.clone())]));
+        lines.push(ins("csrrw", vec![r(ZERO), Opd::C("uscratch".into()), r(b)]));
+        lines.push(ins("lw", vec![r(a), m(0, SP)]));
+        lines.push(ins("lw", vec![r(b), m(4, SP)]));
+        lines.push(ins("addi", vec![r(SP), r(SP), i(8)]));
+        lines.push(ins("uret", vec![]));
+        lines.push(Line::Label(alt));
+        lines.push(ins("lw", vec![r(a), m(0, SP)]));
+        lines.push(ins("lw", vec![r(b), m(4, SP)]));
+        lines.push(ins("addi", vec![r(SP), r(SP), i(8)]));
+        lines.push(ins(if ch.chance(1, 2) { "ret" } else { "uret" }, vec![]));
+        lines.push(Line::Label(alt2));
+        lines.push(ins("lw", vec![r(a), m(0, SP)]));
+        lines.push(ins("lw", vec![r(b), m(4, SP)]));
+        lines.push(ins("addi", vec![r(SP), r(SP), i(8)]));
+        lines.push(ins(if ch.chance(1, 2) { "ret" } else { "uret" }, vec![]));
+    } else {
+        lines.push(ins("csrrw", vec![r(ZERO), Opd::C("uscratch".into()), r(b)]));
+        lines.push(ins("lw", vec![r(a), m(0, SP)]));
+        lines.push(ins("lw", vec![r(b), m(4, SP)]));
+        lines.push(ins("addi", vec![r(SP), r(SP), i(8)]));
+        lines.push(ins("uret", vec![]));
+    }
+    true
 }
 
 pub const FAULT_KINDS: [&str; 18] = [
